@@ -5,5 +5,10 @@ CLAIMS = {
   "text": "Structural necessary conditions of C01 decided on all paths and all configuration arms: every conditional-subtraction helper (generic, const-fn twin, macro-generated for each of the ~40 shipped/derived fields) subtracts the configuration's modulus exactly when carry || value >= p; on every arm without a spare bit the final reduction of add/double/mul/square consumes the carry computed by the limb arithmetic; every path to the normal return passes a reduction; shape predicates equal their recomputation from the modulus; from_bigint is range-checked. The limb schedules themselves (CIOS/SOS compute a*b*R^-1) quantify over 64-bit values and are not decided.",
   "note": "Trusted: rustc MIR construction/trait resolution, the rule tables in /verif/rules/c01.py. Assumes mac/adc chains compute what they are named for. Decides the carry/reduction/predicate clauses, not the arithmetic result.",
  },
+ "C08": {
+  "technique": "MIR typestate (must-pass-through canonicalisation after every coefficient write) + symbolic linear-combination evaluation of operator bodies",
+  "text": "Decides on all paths of every function in ark-poly that writes a DensePolynomial's coefficient vector that the strip-leading-zeros loop follows before the value escapes (exemptions frozen with reasons: Neg, scalar Mul, DerefMut, serialization); that computed sparse terms are pushed only under a non-zero guard; the guard structure of divide_with_q_and_r; and, by symbolic evaluation with operands as ring symbols, that every univariate operator defined through other operators (Sub/SubAssign/AddAssign/by-value forms) returns the combination its trait promises on every path. Coefficient-level results of the loops (pointwise sums, FFT products, evaluation) are not decided.",
+  "note": "Trusted: rustc MIR, the exemption table in rules/c08.py, the ring-operation model in arklib/symex.py. Assumes operator inputs are canonical. Shows canonical-form preservation and operator wiring, not coefficient values.",
+ },
 }
 NOT_APPLICABLE = {}
